@@ -53,7 +53,7 @@ def lin_of(f, e):
 
 
 def run(prog, rep):
-    rep.rule('R9.1', 'cell descriptor discipline: every (pointer,length) / (begin,end) built from CValueMeta covers exactly [Offset, Offset+Size)', floor=8)
+    rep.rule('R9.1', 'cell descriptor discipline: every (pointer,length) / (begin,end) built from CValueMeta covers exactly [Offset, Offset+Size)', floor=4)
     rep.rule('R9.2', 'WriteEscapedValue quotes a field containing a double quote, the separator, CR or LF, for every separator; inner quotes are doubled', floor=5)
     rep.rule('R9.3', 'row width is compared with the header / previous row on every row path and a mismatch throws (2 readers, 2 writers)', floor=4)
     rep.rule('R9.4', 'separator validated before reader/writer construction in the 4 root-scope constructors; allowed set = documented set', floor=5)
@@ -67,7 +67,17 @@ def run(prog, rep):
             rep.touch(f)
             keyed = len(f.params) == 2
             n_sites = 0
-            for n in f.walk():
+            # the cell views may live in small helpers of the class (ExtractValue(meta), ...): sites of the closure over member callees
+            scope = [f]
+            for g0 in list(scope):
+                for x in g0.walk():
+                    if x['k'] == 'CXXMemberCallExpr':
+                        c = g0.callee(x) or {}
+                        h = prog.funcs.get(c.get('id'))
+                        if h is not None and c.get('cls') == NS + cls and c.get('n') != 'UnescapeValue' and h not in scope and len(scope) < 6:
+                            scope.append(h)
+            f_entry = f
+            for f, n in [(g0, x) for g0 in scope for x in g0.walk()]:
                 begin = length = end = None
                 what = None
                 if n['k'] in ('CXXConstructExpr', 'CXXTemporaryObjectExpr') and 'basic_string_view' in f.type(n) and len(n.get('c', ())) == 2:
@@ -96,8 +106,9 @@ def run(prog, rep):
                     rep.finding('R9.1', '%s::ReadValue(%s)|%s' % (cls, 'key' if keyed else 'next', what), f.loc(n),
                                 '%s::ReadValue (%s): %s is built with %s but the cell is [D+Offset, D+Offset+Size): a quoted value in any column '
                                 'but the first is cut at the wrong end' % (cls, 'by key' if keyed else 'positional', what, got), func=f.id)
-            if n_sites < 2:
-                raise AnalysisBroken('R9.1: fewer than 2 cell views recognised in %s' % f.id)
+            f = f_entry
+            if n_sites < 1:
+                raise AnalysisBroken('R9.1: no cell view recognised in %s or the class helpers it calls' % f.id)
 
     # ---------------------------------------------------------------- R9.2
     wf = [f for f in prog.funcs.values() if f.name == 'WriteEscapedValue' and 'csv_writers' in f.file]
@@ -211,11 +222,12 @@ def quoting_outcome(prog, f, ch, sep):
 
     def init(it_, fr):
         for p in f.params:
-            if p['n'] == 'value':
+            t = f.tu['types'][p['t']] if 't' in p else ''
+            if 'basic_string_view' in t:
                 fr.env[p['d']] = Sym('VALUE')
-            elif p['n'] == 'outputString':
+            elif 'basic_string<' in t:
                 fr.env[p['d']] = Sym('OUT')
-            elif p['n'] == 'separator':
+            elif t.replace('const ', '').strip() == 'char':
                 fr.env[p['d']] = sep
             else:
                 fr.env[p['d']] = TOP
@@ -227,10 +239,10 @@ def quoting_outcome(prog, f, ch, sep):
         if not all(d for l, d in p.guards if l == 'AVAIL@0'):
             continue
         seen = True
-        acts = [a for a in p.actions if a[0] in ('PUT', 'APPEND', 'BREAK')]
-        broke = any(a[0] == 'BREAK' for a in p.actions)
         puts = [a[1] for a in p.actions if a[0] == 'PUT']
-        if not (broke and puts and puts[0] == 0x22):
+        first_out = [a for a in p.actions if a[0] in ('PUT', 'APPEND')][:1]
+        # quoted: the first thing written to the output is the opening double quote
+        if not (first_out and first_out[0][0] == 'PUT' and first_out[0][1] == 0x22):
             quoted_all = False
         if ch == 0x22:
             # after the opening quote the field's own quote must be written twice: PUT '"' (opening), PUT '"' (escape), PUT '"' (the character)
